@@ -19,7 +19,7 @@ func init() {
 	Register(&Spec{
 		ID:        "C18",
 		Technique: "runtime monitoring: differential monitor between a body written with dynamic blocks and the same body written out by the harness (iterator references substituted on the harness AST), decoded under generated specifications; conformance and partial-equality monitors for unknown for_each; expansion-variable pruning",
-		Rule: "each case is a body tree with repetition groups (block type, labels computed from the iterator, content with attributes referring to the iterator's key/value, to outer iterators and to scope variables, nested static blocks and nested groups to depth 3, default and custom iterator names incl. names that shadow scope variables or an enclosing iterator) over collections of every iterable kind (tuple, list, set, map, object; literal or from the scope; sizes 0-4; primitive and object elements), rendered once with dynamic blocks and once written out, both decoded with hcldec under a spec generated over all block spec kinds (incl. BlockAttrs and single Block), natively; 1 case in 5 makes one for_each unknown (typed, refined or dynamic); " +
+		Rule: "each case is a body tree with repetition groups (block type, labels computed from the iterator, content with attributes referring to the iterator's key/value, to outer iterators and to scope variables, nested static blocks and nested groups to depth 3, default and custom iterator names incl. names that shadow scope variables or an enclosing iterator) over collections of every iterable kind (tuple, list, set, map, object; literal or from the scope; sizes 0-4; primitive and object elements), rendered once with dynamic blocks and once written out, both decoded with hcldec under a spec generated over all block spec kinds (incl. BlockAttrs and single Block), natively; 1 case in 5 makes one for_each unknown (typed, refined or dynamic); every specification is also applied piecewise (PartialDecode, PartialDecode of the remainder, Decode of the rest) to both forms; " +
 			"non-trivial = at least one group has >= 2 elements or is nested; distinct by dynamic source + spec kinds",
 		Assumptions: []string{"cty's element iteration order defines 'iteration order' for sets", "element values are primitives or objects of primitives so that substituting them as literals preserves their type"},
 		Quick:       Plan{Batches: 16, PerBatch: 1200, MinNonTrivial: 5000},
